@@ -49,6 +49,7 @@ pub struct Weights {
     pub getmut: u32,
     pub getttl: u32,
     pub gethold: u32,
+    pub getwide: u32,
     pub umc: u32,
     pub clear: u32,
     pub wait: u32,
@@ -70,6 +71,7 @@ impl Default for Weights {
             getmut: 3,
             getttl: 3,
             gethold: 1,
+            getwide: 0,
             umc: 2,
             clear: 2,
             wait: 2,
@@ -364,6 +366,7 @@ pub fn op_strategy(p: &Profile, cfg: &Config) -> BoxedStrategy<Op> {
             w.gethold,
             (0..nk, proptest::sample::select(vec![0i64, 1, 1_000_000, 500_000_000, NS - 1, NS, NS + 1, 2 * NS, 10 * NS])).prop_map(|(k, dt)| Op::GetHold { k, dt }).boxed(),
         ),
+        (w.getwide, (proptest::sample::select(vec![8u16, 40, 150, 600]), 0u16..4).prop_map(|(n, base)| Op::GetWide { n, base }).boxed()),
         (w.umc, umc_vals.prop_map(|m| Op::UpdateMaxCost { m }).boxed()),
         (w.clear, (0usize..4).prop_map(|pre| Op::Clear { pre }).boxed()),
         (w.wait, Just(Op::Wait).boxed()),
